@@ -806,6 +806,12 @@ def parse_tree_to_objgraph(
         """
         Depth-first model object processing.
         """
+        if type(model_obj) in PRIMITIVE_PYTHON_TYPES:
+            # A value produced by a match rule (e.g. an element of an
+            # attribute typed by an abstract rule that also yields strings).
+            # Match rule processors are already called in `process_match`.
+            return
+
         try:
             if metaclass_of_grammar_rule is None:
                 metaclass_of_grammar_rule = metamodel[model_obj.__class__.__name__]
